@@ -35,7 +35,7 @@ RULE = ('per routine: random structured networks (Erdos-Renyi at 3 densities, pl
         'random sign flips for the signed routines; directed where the routine accepts it; gamma in {1, 3/4, 5/4, 13/10} or {0, '
         '1/2, 7/8, 3/2, 19/10}; all five qtypes / four built-in objectives; initial partition none / random / one block / shuffled '
         'singletons / non-contiguous and negative labels, as ndarray or list; float or integer dtype; seed int or None; '
-        'hierarchy=True for the Louvain routines; a 44-node increasing-weight path (23..32 sweeps); 131..140-node sparse networks '
+        'hierarchy=True for the Louvain routines; a 44-node increasing-weight path (23..32 sweeps); 143..150-node sparse networks '
         'with > 127 modules (direct oracle); given-partition and spectral cases n=1..12; non-trivial = at least one accepted node '
         'move; distinct by hash of (routine, matrix, gamma, type, initial partition, seed)')
 ASSUMES = ['weights are integers or dyadic rationals with total weight < 2^23: every sum of weights the model treats as exact is exact in binary64; quantities '
